@@ -3,6 +3,8 @@ import json
 
 
 def run(ctx):
+    if ctx.replay:
+        return rerun(ctx)
     # 1a. decision table: every (role, connection type, src, dest, ttl, protocol, via) combination, two calls deep
     #     (the cost is the step property, evaluated for every packet on every transition)
     r = ctx.model_check("net", "MC_Flood", "MC_Flood.cfg",
@@ -12,9 +14,11 @@ def run(ctx):
                '"drop:conntype"', '"close:proto"']
     ctx.check_coverage(r, classes)
     # 1b. relay sequences through three peers against the bucketed duplicate filter
+    #     (quick: flooded packets only; thorough: interleaved with one-hop packets, one call deeper)
     r2 = ctx.model_check("net", "MC_Flood", "MC_FloodRelay.cfg",
-                         constants={"MaxOps": ctx.pick(5, 6)}, coverage=True, timeout=ctx.pick(600, 2400), label="relay 2x2")
-    ctx.check_coverage(r2, classes[:3], allow_zero=("origin-not-root", "drop:self", "drop:conntype", "close:proto"))
+                         constants={"MaxOps": ctx.pick(5, 6), "Ttls": ctx.pick("{0}", "{0, 1}")}, coverage=True,
+                         timeout=ctx.pick(600, 2400), label="relay 2x2")
+    ctx.check_coverage(r2, classes[:2], allow_zero=("origin-not-root", "drop:self", "drop:conntype", "close:proto", "onehop"))
     if not ctx.quick():
         r3 = ctx.model_check("net", "MC_Flood", "MC_FloodRelay.cfg",
                              constants={"MaxOps": 6, "NB": 3, "LB": 1, "Ttls": "{0}"}, coverage=True, timeout=2400, label="relay 3x1")
@@ -33,9 +37,6 @@ def run(ctx):
     relay = ctx.behaviours("net", "Gen_Flood", "Gen_FloodRelay.cfg", constants={"MaxOps": wl, "Depth": wl},
                            simulate="num=%d" % ctx.pick(1500, 10000), depth=wl + 2, seed=ctx.seed, timeout=1500)
     allb = table + walks + relay
-    if ctx.replay:
-        d = json.load(open(ctx.replay))["detail"]
-        allb = [{"behaviour": d["behaviour"], "sub": d["sub"]}]
     inp = ctx.path("in", "behaviours.ndjson")
     with open(inp, "w") as fh:
         for b in allb:
@@ -43,9 +44,8 @@ def run(ctx):
     # 3. replay into PeerToPeer.onPacket with a real PacketPool of the same geometry
     recs = ctx.go_replay("flood", "TestReplay", inp, shards=ctx.pick(2, 4), timeout=ctx.pick(600, 1800))
     ctx.absorb(recs)
-    if not ctx.replay:
-        for b in (relay[:2] + table[-1:]):
-            ctx.sample([{k: s[k] for k in s if k in ("op", "role", "ctype", "via", "src", "dest", "ttl", "body", "proto", "res")} for s in b])
+    for b in (relay[:2] + table[-1:]):
+        ctx.sample([{k: s[k] for k in s if k in ("op", "role", "ctype", "via", "src", "dest", "ttl", "body", "proto", "res")} for s in b])
     return ctx.finish(
         rule="a behaviour = a peer configuration (roles, connection types) and a TLC-generated sequence of packets "
              "(src, dest, ttl, body, protocol) each arriving through one of three peers: the complete one-call table "
@@ -63,3 +63,13 @@ def run(ctx):
 def ctx_machinery(msg):
     from vlib import MachineryError
     return MachineryError(msg)
+
+
+def rerun(ctx):
+    """Re-execute exactly the behaviour (and concretization) stored in a replay file."""
+    d = json.load(open(ctx.replay))["detail"]
+    inp = ctx.path("in", "behaviours.ndjson")
+    with open(inp, "w") as fh:
+        fh.write(json.dumps({"behaviour": d["behaviour"], "sub": d["sub"]}) + "\n")
+    ctx.absorb(ctx.go_replay("flood", "TestReplay", inp))
+    return ctx.finish(rule="re-execution of one stored behaviour", assumptions=["replay of %s" % ctx.replay])
